@@ -196,9 +196,12 @@ def native_model_function(name, params, ret="float", n_labels=None):
         extra = f" + 0.125 * {params[0]} * {params[-1]}" if len(params) >= 2 else ""
         body = f"({lin}){extra} + 0.0 * jnp.zeros(())"
     elif ret == "bool":
-        body = f"(jnp.floor(jnp.abs({lin}) * 4.0) % 6) != 0"
+        # the jumps are shifted off the lattice on which sampled parameters and grid points lie (multiples of
+        # 1/96): a jump exactly at a grid point would be decided by float32 rounding, differently in the
+        # fused real code and in the specification
+        body = f"(jnp.floor(jnp.abs({lin}) * 4.0 + 0.37) % 6) != 0"
     else:
-        body = f"(jnp.floor(jnp.abs({lin}) * 2.0).astype(int)) % {int(n_labels)}"
+        body = f"(jnp.floor(jnp.abs({lin}) * 2.0 + 0.37).astype(int)) % {int(n_labels)}"
     src = f"import jax.numpy as jnp\ndef {name}({', '.join(params)}):\n    return {body}\n"
     ns = {}
     exec(src, ns)  # noqa: S102 - generated from a fixed template
